@@ -44,6 +44,8 @@ class NamesDriver:
         stats["op:" + op] = stats.get("op:" + op, 0) + 1
         if op == "lookup":
             return self._lookup(ev, ctx, stats)
+        if op in ("snap", "restore"):
+            return self._snap_restore(ev, ctx, stats)
         before = self._snapshot()
         out, exc = "ok", None
         try:
@@ -130,6 +132,36 @@ class NamesDriver:
                     mm.append(self._mm("%s:unbound:%s" % (tag, f), "%r is no longer bound" % (key,)))
         return mm
 
+    def _snap_restore(self, ev, ctx, stats):
+        """pickle an object now / load that pickle later: no registry and nothing an object reports may change"""
+        import pickle
+        c, k = ev["c"], ev["k"]
+        obj = ctx["obj"].get(k)
+        if obj is None:
+            return [{"prop": "DRIFT", "key": "object-missing", "detail": k}]
+        if ev["op"] == "snap":
+            ctx.setdefault("blob", {})[(c, k, ev["s"])] = pickle.dumps(obj)
+            return []
+        before = self._snapshot()
+        try:
+            got = pickle.loads(ctx["blob"][(c, k, ev["s"])])
+        except Exception as ex:
+            return [self._mm("%s-restore:raised:%s" % (c, type(ex).__name__), "loading an earlier pickle of %s" % k)]
+        after = self._snapshot()
+        stats["restores"] = stats.get("restores", 0) + 1
+        mm = []
+        if got is not obj:
+            mm.append(self._mm("%s-restore:another-object" % c, "the pickle of %s loaded as another object" % k))
+        changed = [f for f in ("uname", "usym", "pname", "psym", "dname") if before[f] != after[f]]
+        for f, what in (("objs", "unit.names/symbols"), ("pobjs", "prefix.name/symbol"), ("dobjs", "dimension.name/symbol")):
+            if before[f] != {i: v for i, v in after[f].items() if i in before[f]}:
+                changed.append(what)
+        if changed:
+            mm.append(self._mm("%s-restore:rewound:%s" % (c, "+".join(changed)),
+                               "loading a pickle of %s taken before later declarations changed %s (the object now reports %r)" % (
+                                   k, changed, (getattr(obj, "names", None) or getattr(obj, "name", None), getattr(obj, "symbols", None) or getattr(obj, "symbol", None)))))
+        return mm
+
     def _lookup(self, ev, ctx, stats):
         m = self.m
         sym = SYM[ev["s"]] if ev["c"] != "dimension" else NAME[ev["s"]]
@@ -213,6 +245,18 @@ def run_c19(tier, seed):
     v.nontrivial += drep["stats"].get("declared", 0) + drep["stats"].get("failed-calls", 0)
     v.add_violations(drep["mm"])
     v.extra["replay_dimensions"] = {"transitions": len(dtrans), "spec_states": dstates, "executed": drep["n"], "stats": drep["stats"]}
+    # snapshots: pickle an object, declare more names, load the pickle
+    sres = run_tlc("MC_Names", wd=workdir("tlc_names_snap"), env={"VERIF_DEPTH": 4 if tier == "quick" else 6, "VERIF_DIMS": 2}, workers=4, timeout=3000)
+    require_ok(sres, "MC_Names[snapshots]")
+    v.add_tlc(sres, "MC_Names[snapshots]")
+    strans = sres.exports.get("T", [])
+    sh, sstates = graph_histories(strans, sres.exports.get("I", []))
+    srep = replay_histories(sh, NamesDriver(), split_depth=2, label="names_snap")
+    v.impl += srep["n"]
+    v.evaluations += srep["n"]
+    v.nontrivial += srep["stats"].get("restores", 0)
+    v.add_violations(srep["mm"])
+    v.extra["replay_snapshots"] = {"transitions": len(strans), "spec_states": sstates, "executed": srep["n"], "stats": srep["stats"]}
     import_traces(v, tier, seed)
     v.rule = ("cases = transitions of the TLC state graph of MC_Names (declaring and anonymous calls in every order, valid and invalid), one "
               "real execution each; plus declaration traces of the shipped modules under several import orders validated by TLC; "
